@@ -66,23 +66,30 @@ func (o op) String() string {
 func genHist(t *rapid.T) histCase {
 	c := histCase{Names: rapid.IntRange(2, 3).Draw(t, "names")}
 	var ops []op
-	switch mode := rapid.IntRange(0, 4).Draw(t, "mode"); mode {
+	// preamble: some namespaces already exist (created by an uninterleaved prepare+commit)
+	for n := 0; n < c.Names; n++ {
+		if rapid.IntRange(0, 2).Draw(t, "exists") > 0 {
+			ops = append(ops, op{K: kPrep, N: n}, op{K: kCommit, N: n})
+		}
+	}
+	pre := len(ops)
+	switch mode := rapid.SampledFrom([]int{2, 3, 2, 3, 2, 3, 0, 1}).Draw(t, "mode"); mode {
 	case 0: // free sequence of operations
-		n := rapid.IntRange(1, 12).Draw(t, "len")
+		n := rapid.IntRange(1, 10).Draw(t, "len")
 		for i := 0; i < n; i++ {
 			k := rapid.SampledFrom([]string{kPrep, kPrep, kCommit, kCommit, kCommit, kDelete}).Draw(t, "k")
 			ops = append(ops, op{K: k, N: rapid.IntRange(0, c.Names-1).Draw(t, "n")})
 		}
 	default: // 1..3 administrators, each running a script of whole changes, interleaved
-		admins := rapid.IntRange(1, 3).Draw(t, "admins")
-		if mode >= 3 {
-			admins = rapid.IntRange(2, 3).Draw(t, "admins2")
-		}
+		admins := mode
 		scripts := make([][]op, admins)
 		for a := range scripts {
 			tasks := rapid.IntRange(1, 3).Draw(t, "tasks")
 			for i := 0; i < tasks; i++ {
-				n := rapid.IntRange(0, c.Names-1).Draw(t, "n")
+				n := a % c.Names // administrators mostly work on different namespaces
+				if rapid.IntRange(0, 2).Draw(t, "own") == 0 {
+					n = rapid.IntRange(0, c.Names-1).Draw(t, "n")
+				}
 				switch rapid.IntRange(0, 5).Draw(t, "task") {
 				case 0: // delete
 					scripts[a] = append(scripts[a], op{K: kDelete, N: n})
@@ -100,7 +107,7 @@ func genHist(t *rapid.T) histCase {
 					live = append(live, a)
 				}
 			}
-			if len(live) == 0 || len(ops) >= 12 {
+			if len(live) == 0 || len(ops)-pre >= 10 {
 				break
 			}
 			a := live[rapid.IntRange(0, len(live)-1).Draw(t, "who")]
@@ -757,7 +764,7 @@ func TestC31Sequential(t *testing.T) {
 	}
 	pbt.Run(t, pbt.Spec{ID: "C31", Sub: "sequential", Quick: 1000, Thorough: 5000,
 		Rule: "histories of <=12 prepare(n,version)/commit(n)/delete(n) over 2-3 namespaces: free sequences (1/5) or 1-3 administrators' scripts of whole changes (prepare+commit), abandoned prepares and deletes, interleaved in a drawn order; applied to a real server.Manager, namespace and credential views compared with the specification after every step; non-trivial = an operation on another namespace lies between a prepare and the next commit of the same namespace",
-		Floor: 0.5}, genHist, checkSeq)
+		Floor: 0.35}, genHist, checkSeq)
 }
 
 func TestC31Concurrent(t *testing.T) {
@@ -767,7 +774,7 @@ func TestC31Concurrent(t *testing.T) {
 	}
 	pbt.RunWith(t, pbt.Spec{ID: "C31", Sub: "concurrent", Quick: quick, Thorough: thorough,
 		Rule: "the same histories issued by one writer while 1-3 reader goroutines sweep GetNamespace / GetNamespaceByUser / CheckUser; every lookup is stamped with the step counter before and after and must return a value the specification had at some moment in that window; readers complete two sweeps between consecutive operations (a lookup overlaps at most one operation); run under -race in the thorough tier; non-trivial = interleaved history (as in the sequential sub-check)",
-		Floor: 0.4}, genConc, func(c histCase, _ *pbt.Recorder) pbt.Outcome {
+		Floor: 0.3}, genConc, func(c histCase, _ *pbt.Recorder) pbt.Outcome {
 		writeLastInput(c)
 		return checkConc(c)
 	})
